@@ -85,24 +85,43 @@ theorem printable_props (b : UInt8) (h1 : 0x20 ≤ b) (h2 : b ≤ 0x7E) :
     unfold isAsciiSpace
     simp [h20, ne 0x09 (by decide), ne 0x0A (by decide), ne 0x0B (by decide), ne 0x0C (by decide), ne 0x0D (by decide)]
 
+theorem edge_props (b : UInt8) (h1 : 0x21 ≤ b) (h2 : b ≤ 0x7E) : b < 0x80 ∧ isAsciiSpace b = false := by
+  have l1 : (0x21 : UInt8).toNat ≤ b.toNat := UInt8.le_iff_toNat_le.mp h1
+  have e1 : (0x21 : UInt8).toNat = 33 := by decide
+  have e0 : (0x20 : UInt8).toNat = 32 := by decide
+  rw [e1] at l1
+  have h20 : (0x20 : UInt8) ≤ b := by
+    apply UInt8.le_iff_toNat_le.mpr
+    rw [e0]; omega
+  have hne : b ≠ 0x20 := by
+    intro e; subst e
+    rw [e0] at l1; omega
+  exact ⟨(printable_props b h20 h2).1, (printable_props b h20 h2).2.2.2 hne⟩
+
+theorem text_props (b : UInt8) (h : ((0x20 ≤ b && b ≤ 0x7E) || 0x80 ≤ b) = true) : b ≠ 0x0A ∧ b ≠ 0x0D := by
+  simp only [Bool.or_eq_true, Bool.and_eq_true, decide_eq_true_eq] at h
+  rcases h with ⟨h1, h2⟩ | h3
+  · exact ⟨(printable_props b h1 h2).2.1, (printable_props b h1 h2).2.2.1⟩
+  · have l : (0x80 : UInt8).toNat ≤ b.toNat := UInt8.le_iff_toNat_le.mp h3
+    have e : (0x80 : UInt8).toNat = 128 := by decide
+    rw [e] at l
+    constructor <;> (intro e'; subst e'; revert l; decide)
+
 theorem valueFacts (v : Bytes) (h : fieldValueOK v = true) : ValueFacts v := by
   unfold fieldValueOK at h
-  simp only [Bool.and_eq_true, List.all_eq_true, decide_eq_true_eq, bne_iff_ne, ne_eq] at h
+  simp only [Bool.and_eq_true, List.all_eq_true] at h
   obtain ⟨⟨h1, h2⟩, h3⟩ := h
-  have hp := fun b hb => printable_props b (h1 b hb).1 (h1 b hb).2
-  refine { noLF := fun m => (hp _ m).2.1 rfl, noCR := fun m => (hp _ m).2.2.1 rfl, head := ?_, last := ?_ }
+  refine { noLF := fun m => (text_props _ (h1 _ m)).1 rfl, noCR := fun m => (text_props _ (h1 _ m)).2 rfl, head := ?_, last := ?_ }
   · intro b hb
-    have hm : b ∈ v := by cases v with
-      | nil => simp at hb
-      | cons x t => simp at hb; subst hb; simp
-    have hne : b ≠ 0x20 := by intro e; subst e; exact h2 hb
-    exact ⟨(hp b hm).1, (hp b hm).2.2.2 hne⟩
+    rw [hb] at h2
+    simp only [Bool.and_eq_true, decide_eq_true_eq] at h2
+    exact edge_props b h2.1 h2.2
   · intro b hb
     have hl : v.getLast? = some b := by
       rw [List.getLast?_eq_head?_reverse]; exact hb
-    have hm : b ∈ v := List.mem_of_getLast? hl
-    have hne : b ≠ 0x20 := by intro e; subst e; exact h3 hl
-    exact ⟨(hp b hm).1, (hp b hm).2.2.2 hne⟩
+    rw [hl] at h3
+    simp only [Bool.and_eq_true, decide_eq_true_eq] at h3
+    exact edge_props b h3.1 h3.2
 
 /-! ### one field line -/
 
